@@ -244,6 +244,60 @@ PIPELINES.append(Pipeline('U7_Builder_add_size', units=[U_ibytes, U_iaddsz, U_it
 PIPELINES.pop()   # recursion under dfcc: kept out until the self-replacement form is settled
 
 
+# ---- grow / grow_internal enforced on their own bodies: sizes, ownership, and the content observed at an arbitrary byte ---------------------------
+GROW_STUBS = '''
+size_t ghost_k; unsigned char ghost_v;    /* ghost: an arbitrary byte of the buffer before the operation and its value */
+/* new unsigned char[n]: fresh memory of that size (allocation failure is outside the property) */
+unsigned char* verif_new_bytes(size_t n) __CPROVER_requires(n >= 1) __CPROVER_assigns() __CPROVER_ensures(__CPROVER_is_fresh(__CPROVER_return_value, n));
+/* std::copy_n on bytes (C++ standard), stated for the observed byte */
+unsigned char* copy_n(const unsigned char* src, size_t n, unsigned char* dst) __CPROVER_requires(__CPROVER_r_ok(src, n) && __CPROVER_w_ok(dst, n)) __CPROVER_assigns(__CPROVER_object_upto(dst, n))
+  __CPROVER_ensures(ghost_k >= n || dst[ghost_k] == src[ghost_k]);
+unsigned char* copy_n_off(const unsigned char* src, size_t n, unsigned char* dst) __CPROVER_requires(__CPROVER_r_ok(src, n) && __CPROVER_w_ok(dst, n)) __CPROVER_assigns(__CPROVER_object_upto(dst, n))
+  __CPROVER_ensures(ghost_k2 >= n || dst[ghost_k2] == src[ghost_k2]);
+void verif_delete_bytes(unsigned char* p) __CPROVER_requires(1) __CPROVER_assigns() __CPROVER_ensures(1);
+/* new Buffer{std::move(m_memory), capacity, committed}: the nested buffer takes over the old memory block */
+struct Buffer* verif_new_nested_buffer(unsigned char* memory, size_t capacity, size_t committed) __CPROVER_requires(memory != 0) __CPROVER_assigns()
+  __CPROVER_ensures(__CPROVER_is_fresh(__CPROVER_return_value, sizeof(struct Buffer)) && __CPROVER_pointer_equals(__CPROVER_return_value->m_data, memory) && __CPROVER_pointer_equals(__CPROVER_return_value->m_memory, memory) &&
+                    __CPROVER_return_value->m_capacity == capacity && __CPROVER_return_value->m_written == committed && __CPROVER_return_value->m_committed == committed && __CPROVER_return_value->m_next_buffer == 0);
+'''
+U_grow = Unit(BUF, 'grow', cls='Buffer',
+              pre=[(r'std::unique_ptr<unsigned char\[\]> memory\{new unsigned char\[size\]\};', 'unsigned char* memory = verif_new_bytes(size);'),
+                   (r'std::copy_n\(m_memory\.get\(\), m_capacity, memory\.get\(\)\);', 'copy_n(m_memory, m_capacity, memory);'),
+                   (r'using std::swap;\s*swap\(m_memory, memory\);', '{ unsigned char* verif_t = m_memory; m_memory = memory; memory = verif_t; }'),
+                   (r'm_data = m_memory\.get\(\);', 'm_data = m_memory;'),
+                   (r'm_capacity = size;\s*\}', 'm_capacity = size; verif_delete_bytes(memory); /* ~unique_ptr: the old block */ }')])
+PIPELINES.append(Pipeline('U3_grow', units=[U_pad, U_cap, U_grow], prelude=lambda repo: buf_prelude(repo) + 'size_t ghost_k2;\n' + GROW_STUBS, contracts={'Buffer_grow': [
+    ('pre:a valid buffer; one byte of it is observed', 'requires', 'verif_exc == 0 && BUF_REQ(self) && size <= (1u << 30) - 8 && ghost_k < self->m_capacity && self->m_data[ghost_k] == ghost_v'),
+    ('post:only a buffer with external memory refuses', 'ensures', '(verif_exc != 0) == (__CPROVER_old(self->m_memory) == 0) && (verif_exc == 0 || verif_exc == EXC_logic_error)'),
+    ('post:the capacity is at least what was asked for, never shrinks, stays aligned; fill state untouched', 'ensures',
+     'verif_exc != 0 || (self->m_capacity >= size && self->m_capacity >= __CPROVER_old(self->m_capacity) && self->m_capacity % 8 == 0 && self->m_written == __CPROVER_old(self->m_written) && self->m_committed == __CPROVER_old(self->m_committed))'),
+    ('post:the buffer owns its (possibly new) memory and every byte is where it was', 'ensures',
+     'verif_exc != 0 || (__CPROVER_pointer_equals(self->m_memory, self->m_data) && __CPROVER_rw_ok(self->m_data, self->m_capacity) && self->m_data[ghost_k] == ghost_v)'),
+    ('frame', 'assigns', 'verif_exc, self->m_memory, self->m_data, self->m_capacity')]},
+    replace=['verif_new_bytes', 'copy_n', 'verif_delete_bytes'], enforce='Buffer_grow',
+    harness='void harness(void) { struct Buffer* b; size_t n; Buffer_grow(b, n); __CPROVER_assert(verif_exc != 0, "canary:normal"); __CPROVER_assert(verif_exc == 0, "canary:throw"); }',
+    canaries=['canary:normal', 'canary:throw'], replay=('c04_buffer', lambda cex, o: ['search']), trace=False, note='any capacity up to 2^30; the content is observed at an arbitrary byte'))
+U_growi = Unit(BUF, 'grow_internal', cls='Buffer',
+               pre=[(r'std::unique_ptr<Buffer> old\{new Buffer\{std::move\(m_memory\), m_capacity, m_committed\}\};', 'struct Buffer* old = verif_new_nested_buffer(m_memory, m_capacity, m_committed);'),
+                    (r'm_memory = std::unique_ptr<unsigned char\[\]>\{new unsigned char\[m_capacity\]\};', 'm_memory = verif_new_bytes(m_capacity);'),
+                    (r'm_data = m_memory\.get\(\);', 'm_data = m_memory;'),
+                    (r'std::copy_n\(old->data\(\) \+ m_committed, m_written, m_data\);', 'copy_n_off(old->m_data + m_committed, m_written, m_data);'),
+                    (r'old->m_next_buffer = std::move\(m_next_buffer\);', 'old->m_next_buffer = m_next_buffer;'), (r'm_next_buffer = std::move\(old\);', 'm_next_buffer = old;')])
+PIPELINES.append(Pipeline('U3_grow_internal', units=[U_growi], prelude=lambda repo: buf_prelude(repo) + 'size_t ghost_k2;\n' + GROW_STUBS, contracts={'Buffer_grow_internal': [
+    ('pre:a valid buffer; one uncommitted and one committed byte are observed', 'requires',
+     'verif_exc == 0 && BUF_REQ(self) && ghost_k2 < self->m_written - self->m_committed && self->m_data[self->m_committed + ghost_k2] == ghost_v && ghost_k < self->m_committed'),
+    ('post:only a buffer with external memory refuses', 'ensures', '(verif_exc != 0) == (__CPROVER_old(self->m_memory) == 0) && (verif_exc == 0 || verif_exc == EXC_logic_error)'),
+    ('post:the uncommitted data moves to the front of fresh memory of the same capacity, byte by byte', 'ensures',
+     'verif_exc != 0 || (self->m_committed == 0 && self->m_written == __CPROVER_old(self->m_written) - __CPROVER_old(self->m_committed) && self->m_capacity == __CPROVER_old(self->m_capacity) && '
+     '__CPROVER_pointer_equals(self->m_memory, self->m_data) && __CPROVER_rw_ok(self->m_data, self->m_capacity) && self->m_data[ghost_k2] == ghost_v)'),
+    ('post:the committed data stays, untouched, in the old memory, which now belongs to the first nested buffer; the older nested buffers follow it', 'ensures',
+     'verif_exc != 0 || (self->m_next_buffer != 0 && self->m_next_buffer->m_data == __CPROVER_old(self->m_data) && self->m_next_buffer->m_committed == __CPROVER_old(self->m_committed) && '
+     'self->m_next_buffer->m_written == __CPROVER_old(self->m_committed) && self->m_next_buffer->m_next_buffer == __CPROVER_old(self->m_next_buffer))'),
+    ('frame', 'assigns', 'verif_exc, self->m_next_buffer, self->m_memory, self->m_data, self->m_written, self->m_committed')]},
+    replace=['verif_new_nested_buffer', 'verif_new_bytes', 'copy_n_off'], enforce='Buffer_grow_internal',
+    harness='void harness(void) { struct Buffer* b; Buffer_grow_internal(b); __CPROVER_assert(verif_exc != 0, "canary:normal"); __CPROVER_assert(verif_exc == 0, "canary:throw"); }',
+    canaries=['canary:normal', 'canary:throw'], replay=('c04_buffer', lambda cex, o: ['search']), trace=False, note='the old block is not written to (frame): committed items stay valid for readers of the nested buffer'))
+
 # ---- U11: builders never use a pointer into the buffer after the buffer had a chance to move (ghost epochs) ------------------------------------
 # Every Builder operation that reserves space (append, append_with_zero, add_padding, reserve_space_for, add_item) may move the buffer memory
 # (Buffer::reserve_space, pipeline U2): its contract starts a new ghost epoch. A pointer obtained into the buffer is stamped with the epoch it was
@@ -374,8 +428,9 @@ NOT_DECIDED = ['CallbackBuffer', 'moved-from buffer states', 'purge_removed (see
 LEVEL_TEXT = ('Proof for the buffer bookkeeping: padded_length and calculate_capacity (aligned, minimal), commit/rollback/clear (whole-state postconditions: rollback drops only '
               'uncommitted data, clear empties the buffer, nothing else changes), reserve_space for every capacity, fill state and growth mode against the contracts of grow/grow_internal '
               '(doubling loop closed by a loop contract; buffer_is_full exactly when the buffer may not grow; exactly the requested bytes are added to the uncommitted region; the returned pointer is the '
-              'start of the reserved range in the current memory). Proof (ghost epochs) that RelationMemberListBuilder and ChangesetDiscussionBuilder write through a pointer into the buffer '
+              'start of the reserved range in the current memory). grow and grow_internal are enforced on their own bodies: sizes and ownership as reserve_space relies on them, every byte of the buffer (grow) resp. '
+              'every uncommitted byte (grow_internal, moved to the front of fresh memory) is preserved - observed at an arbitrary position -, the committed part stays untouched in the block handed to the nested buffer. Proof (ghost epochs) that RelationMemberListBuilder and ChangesetDiscussionBuilder write through a pointer into the buffer '
               'only in the epoch the pointer was obtained in - every operation that reserves space may move the memory and starts a new epoch - and that the size fields carry the '
               'length including the terminator, over-long roles, user names and texts being rejected with length_error.')
-LEVEL_NOTE = ('Trusted: CBMC, extraction rules, operator new, the contracts of grow/grow_internal (assumed, not yet enforced on their bodies). Not decided: the byte content across a move (a memory-copy pipeline for it '
+LEVEL_NOTE = ('Trusted: CBMC, extraction rules, operator new and std::copy_n (assumed contracts). Not decided: the byte content across a move (a memory-copy pipeline for it '
               'exceeded memory and time on this image; the epoch pipelines decide stale-pointer freedom instead, the native oracle c04_buffer sweeps every growth point and found defect F15), purge_removed, CallbackBuffer, moved-from buffers, whole builder histories.')
